@@ -78,8 +78,81 @@ pub open spec fn chan_delivery(tt: TargetTypeSet, before: Seq<(int, Seq<char>)>,
     }
 }
 
+// --- the per-target postcondition as two relations, so that the enclosing handler can chain them over the distinct targets ---
+// outbox side: accepted => exactly the addressed audience, once each, never the sender (C01); refused / unknown => nobody (C10)
+// the relayed line: the sender's nick!user@host, the verb, the target and the text exactly as sent
+#[verifier::opaque]
+pub open spec fn privmsg_line(src: Seq<char>, notice: bool, target: Seq<char>, text: Seq<char>) -> Seq<char> {
+    seq![':'] + src + seq![' '] + ((if notice { "NOTICE "@ } else { "PRIVMSG "@ }) + target + " :"@ + text)
+}
+// the line built by `format!("PRIVMSG {} :{}", target, text)` and prefixed by send_msg_display is that line (proved from the Display axioms)
+pub proof fn lemma_privmsg_line(src: Seq<char>, notice: bool, target: &&str, text: &str, msg: String)
+    requires msg@ == (if notice { "NOTICE "@ } else { "PRIVMSG "@ }) + dv::<&&&str>(&target) + " :"@ + dv::<&&str>(&text),
+    ensures
+        disp::<&String>(src, &msg) == privmsg_line(src, notice, target@, text@),
+        disp::<String>(src, msg) == privmsg_line(src, notice, target@, text@),
+{
+    broadcast use display_text;
+    reveal(privmsg_line);
+    assert(dv::<&&&str>(&target) == target@);
+    assert(dv::<&&str>(&text) == text@);
+    assert(dv::<&String>(&msg) == msg@);
+}
+pub open spec fn tgt_delivery(s: VolatileState, me: String, src: Seq<char>, notice: bool, text: Seq<char>, target: Seq<char>, ob0: Seq<(int, Seq<char>)>, ob1: Seq<(int, Seq<char>)>, ok: bool) -> bool {
+    let tt = target_type_spec(target).0;
+    let cname = string_of(target_type_spec(target).1);
+    if tt.chan {
+        if s.channels@.contains_key(cname) {
+            let ch = s.channels@[cname];
+            if may_speak(ch, me, src) {
+                ok ==> chan_delivery(tt, ob0, ob1, s, ch, me, privmsg_line(src, notice, target, text))
+            } else {
+                ob1 == ob0
+            }
+        } else {
+            ob1 == ob0
+        }
+    } else {
+        if s.users@.contains_key(string_of(target)) {
+            let u = s.users@[string_of(target)];
+            // the one user owning that nickname, one copy
+            &&& (ok ==> ob1 == ob0.push((u.sender.id(), privmsg_line(src, notice, target, text))))
+            &&& (!ok ==> ob1 == ob0)
+        } else {
+            ob1 == ob0
+        }
+    }
+}
+// reply side: what the sender is told about this target
+pub open spec fn tgt_answer(server: Seq<char>, s: VolatileState, k: ConnState, target: Seq<char>, notice: bool, sl0: Seq<FedItem>, sl1: Seq<FedItem>, ok: bool) -> bool {
+    let tt = target_type_spec(target).0;
+    let cname = string_of(target_type_spec(target).1);
+    let me = my_nick(k);
+    let client = str_of(client_name_spec(k.user_state));
+    if tt.chan {
+        if s.channels@.contains_key(cname) {
+            if may_speak(s.channels@[cname], me, k.user_state.source@) {
+                sl1 == sl0
+            } else {
+                !notice ==> sl1 == sl0.push(fed(server, Reply::ErrCannotSendToChain404 { client, channel: str_of(cname@) }))
+            }
+        } else {
+            !notice ==> sl1 == sl0.push(fed(server, Reply::ErrNoSuchChannel403 { client, channel: str_of(cname@) }))
+        }
+    } else {
+        if s.users@.contains_key(string_of(target)) {
+            let u = s.users@[string_of(target)];
+            // away text is reported to a PRIVMSG sender
+            &&& (!notice && u.away is Some && ok ==> sl1 == sl0.push(fed(server, Reply::RplAway301 { client, nick: str_of(target), message: str_of(u.away->0@) })))
+            &&& (!notice && u.away is None ==> sl1 == sl0)
+        } else {
+            !notice ==> sl1 == sl0.push(fed(server, Reply::ErrNoSuchNick401 { client, nick: str_of(target) }))
+        }
+    }
+}
+
 impl MainState {
-//@block state/rest_cmds.rs MainState::process_privmsg_notice privmsg_one_target unit=privmsg props=C01,C10,C05 rules=R2,R5t,R5b,R6 loopbody=~|for target in HashSet::<&&str>::from_iter\(targets\.iter\(\)\)|
+//@block state/rest_cmds.rs MainState::process_privmsg_notice privmsg_one_target unit=privmsg props=C01,C10,C05,C13 rules=R2,R5t,R5b,R6,R23 loopbody=~|for target in |
 //@head
     pub async fn privmsg_one_target<'a>(&self, state: &VolatileState, conn_state: &mut ConnState, target: &&'a str, text: &'a str, notice: bool,
             Tracked(outbox): Tracked<&mut Outbox>) -> (r: Result<bool, HErr>)
@@ -98,49 +171,23 @@ impl MainState {
             // NOTICE is never answered, whatever the target and the outcome
             notice ==> final(conn_state).stream.log() == old(conn_state).stream.log(), // @prop C10
             log_extends(old(conn_state).stream.log(), final(conn_state).stream.log()), // @prop C10
-            ({
-                let tt = target_type_spec(target@).0;
-                let cname = string_of(target_type_spec(target@).1);
-                let me = my_nick(*old(conn_state));
-                let src = old(conn_state).user_state.source@;
-                if tt.chan {
-                    if state.channels@.contains_key(cname) {
-                        let ch = state.channels@[cname];
-                        if may_speak(ch, me, src) {
-                            // accepted: exactly the addressed audience, once each, never the sender  (C01)
-                            &&& (r is Ok ==> exists|line: Seq<char>| chan_delivery(tt, old(outbox).log, final(outbox).log, *state, ch, me, line)) // @prop C01
-                            &&& final(conn_state).stream.log() == old(conn_state).stream.log()
-                        } else {
-                            // refused: nobody receives it; a PRIVMSG sender is told 404  (C10)
-                            &&& final(outbox).log == old(outbox).log // @prop C10
-                            &&& (!notice ==> final(conn_state).stream.log() == old(conn_state).stream.log().push(fed(self.config.name@,
-                                    Reply::ErrCannotSendToChain404 { client: str_of(client_name_spec(old(conn_state).user_state)), channel: str_of(cname@) })))
-                        }
-                    } else {
-                        &&& final(outbox).log == old(outbox).log
-                        &&& (!notice ==> final(conn_state).stream.log() == old(conn_state).stream.log().push(fed(self.config.name@,
-                                Reply::ErrNoSuchChannel403 { client: str_of(client_name_spec(old(conn_state).user_state)), channel: str_of(cname@) })))
-                    }
-                } else {
-                    if state.users@.contains_key(sk(*target)) {
-                        let u = state.users@[sk(*target)];
-                        // the one user owning that nickname, one copy
-                        &&& (r is Ok ==> exists|line: Seq<char>| final(outbox).log == old(outbox).log.push((u.sender.id(), line))) // @prop C01
-                        &&& (r is Err ==> final(outbox).log == old(outbox).log)
-                        // away text is reported to a PRIVMSG sender
-                        &&& (!notice && u.away is Some && r is Ok ==> final(conn_state).stream.log() == old(conn_state).stream.log().push(fed(self.config.name@, // @prop C10
-                                Reply::RplAway301 { client: str_of(client_name_spec(old(conn_state).user_state)), nick: *target, message: str_of(u.away->0@) })))
-                        &&& (!notice && u.away is None ==> final(conn_state).stream.log() == old(conn_state).stream.log())
-                    } else {
-                        &&& final(outbox).log == old(outbox).log
-                        &&& (!notice ==> final(conn_state).stream.log() == old(conn_state).stream.log().push(fed(self.config.name@,
-                                Reply::ErrNoSuchNick401 { client: str_of(client_name_spec(old(conn_state).user_state)), nick: *target })))
-                    }
-                }
-            }),
+            // who receives what (C01; a refused or unknown target reaches nobody, C10)
+            tgt_delivery(*state, my_nick(*old(conn_state)), old(conn_state).user_state.source@, notice, text@, target@, old(outbox).log, final(outbox).log, r is Ok), // @prop C01,C10
+            // what the sender is told (C10)
+            tgt_answer(self.config.name@, *state, *old(conn_state), target@, notice, old(conn_state).stream.log(), final(conn_state).stream.log(), r is Ok), // @prop C10
 //@open
         broadcast use group_hash_axioms, bridge, string_eq, lemma_cover_is_exact;
         let ghost me = my_nick(*conn_state);
+//@before ~let \(target_type, chan_str\) = get_privmsg_target_type\(target\);
+                proof {
+                    // the relayed text is `<verb> <target> :<text>`, whatever way it was put together
+                    assert(msg_str@ == (if notice { "NOTICE "@ } else { "PRIVMSG "@ }) + dv::<&&&str>(&target) + " :"@ + dv::<&&str>(&text)) by { // @prop C01,C13
+                        reveal(fmt1_text); reveal(fmt2_text); reveal(fmt3_text); reveal_strlit("");
+                        assert(""@ =~= Seq::<char>::empty());
+                        assert(msg_str@ =~= (if notice { "NOTICE "@ } else { "PRIVMSG "@ }) + dv::<&&&str>(&target) + " :"@ + dv::<&&str>(&text)); // @prop C01,C13
+                    }
+                    lemma_privmsg_line(conn_state.user_state.source@, notice, target, text, msg_str);
+                }
 //@before ~if can_send \{
                         let ghost ch = *chanobj;
                         let ghost cname = sk(chan_str);
@@ -497,5 +544,128 @@ impl MainState {
                                             }
                                             assert(fan_out(log_a, outbox.log, *state, set_a, me, line));
                                         }
+//@end
+}
+
+// ===== CONTRACT: the whole PRIVMSG / NOTICE handler: every DISTINCT target exactly once (C01), activity stamp only (C19/C04 frame) =====
+// ASSUMED (rule R21): `HashSet::<&&str>::from_iter(targets.iter())` iterated by value = the distinct targets, each once, in an
+// unspecified order (hash / equality of `&&str` are those of the text).
+pub open spec fn ref_views(r: Seq<&&str>) -> Seq<Seq<char>> { r.map_values(|t: &&str| (**t)@) }
+pub open spec fn str_views(v: Seq<&str>) -> Seq<Seq<char>> { v.map_values(|t: &str| t@) }
+#[verifier::external_body]
+pub fn verif_distinct_refs<'b, 'a>(v: &'b Vec<&'a str>) -> (r: Vec<&'b &'a str>)
+    ensures ref_views(r@).no_duplicates(), ref_views(r@).to_set() == str_views(v@).to_set(),
+{ unimplemented!() }
+
+// the chain of per-target effects: logs[i] -> logs[i+1] is the effect of the i-th distinct target
+pub open spec fn privmsg_chain(server: Seq<char>, s: VolatileState, k: ConnState, notice: bool, text: Seq<char>, order: Seq<Seq<char>>,
+        obs: Seq<Seq<(int, Seq<char>)>>, sls: Seq<Seq<FedItem>>) -> bool {
+    &&& obs.len() == order.len() + 1 && sls.len() == order.len() + 1
+    &&& forall|i: int| 0 <= i < order.len() ==> #[trigger] tgt_delivery(s, my_nick(k), k.user_state.source@, notice, text, order[i], obs[i], obs[i + 1], true)
+    &&& forall|i: int| 0 <= i < order.len() ==> #[trigger] tgt_answer(server, s, k, order[i], notice, sls[i], sls[i + 1], true)
+}
+pub open spec fn privmsg_post(server: Seq<char>, s: VolatileState, k: ConnState, notice: bool, text: Seq<char>, targets: Seq<Seq<char>>,
+        ob0: Seq<(int, Seq<char>)>, ob1: Seq<(int, Seq<char>)>, sl0: Seq<FedItem>, sl1: Seq<FedItem>) -> bool {
+    exists|order: Seq<Seq<char>>, obs: Seq<Seq<(int, Seq<char>)>>, sls: Seq<Seq<FedItem>>|
+        #![trigger privmsg_chain(server, s, k, notice, text, order, obs, sls)]
+        // every distinct target, exactly once
+        order.no_duplicates() && order.to_set() == targets.to_set()
+        && privmsg_chain(server, s, k, notice, text, order, obs, sls)
+        && obs[0] == ob0 && obs[order.len() as int] == ob1 && sls[0] == sl0 && sls[order.len() as int] == sl1
+}
+// nothing of the shared state changes but the sender's own activity stamp
+pub open spec fn activity_only(o: VolatileState, n: VolatileState, me: String) -> bool {
+    &&& o.users@.contains_key(me)
+    &&& n.users@ == o.users@.insert(me, User { last_activity: n.users@[me].last_activity, ..o.users@[me] })
+    &&& n.channels == o.channels && state_rest_same(o, n)
+}
+
+impl MainState {
+//@fn state/rest_cmds.rs MainState::process_privmsg_notice unit=privmsg2 props=C01,C10,C05,C04 rules=R1,R2,R6,R21
+//@blockcall privmsg_one_target acc=something_done rebind=user_nick
+                let sd__ = self.privmsg_one_target(&*state, conn_state, target, text, notice, Tracked(outbox)).await?;
+                if sd__ { something_done = true; }
+//@spec
+        requires state_wf(*old(state)), conn_ok(*old(conn_state), *old(state)),
+        ensures
+            conn_same_but_stream(*final(conn_state), *old(conn_state)), // @prop C01
+            r is Ok ==> privmsg_post(self.config.name@, *old(state), *old(conn_state), notice, text@, str_views(targets@),
+                old(outbox).log, final(outbox).log, old(conn_state).stream.log(), final(conn_state).stream.log()), // @prop C01,C10
+            // NOTICE is never answered
+            notice ==> final(conn_state).stream.log() == old(conn_state).stream.log(), // @prop C10
+            log_extends(old(conn_state).stream.log(), final(conn_state).stream.log()), // @prop C10
+            // the registry is only read; the one thing written is the sender's activity stamp
+            activity_only(*old(state), *final(state), my_nick(*old(conn_state))), // @prop C04
+            sym(*final(state)), // @prop C04,C05
+            chans_wf(*final(state)), // @prop C04,C08
+            no_empty_chan(*final(state)), // @prop C16
+            wallops_wf(*final(state)), // @prop C11,C06,C05
+            counters_wf(*final(state)), // @prop C19
+            senders_distinct(*final(state)), // @prop C02,C01
+            conn_ok(*final(conn_state), *final(state)), // @prop C04
+//@open
+        broadcast use group_hash_axioms, bridge, string_eq;
+        let ghost o = *old(state);
+        let ghost k0 = *old(conn_state);
+        let ghost me = my_nick(k0);
+        let ghost server = self.config.name@;
+        let ghost mut order: Seq<Seq<char>> = Seq::empty();
+        let ghost mut obs: Seq<Seq<(int, Seq<char>)>> = seq![outbox.log];
+        let ghost mut sls: Seq<Seq<FedItem>> = seq![conn_state.stream.log()];
+        proof {
+            assert forall|n: VolatileState| #![trigger state_wf(n)] #![trigger sym(n)] #![trigger chans_wf(n)] #![trigger no_empty_chan(n)] #![trigger wallops_wf(n)] #![trigger counters_wf(n)] #![trigger senders_distinct(n)]
+                activity_only(o, n, me) implies state_wf(n) by { lemma_user_field_wf(o, n, me); }
+            assert(o.users@ =~= o.users@.insert(me, User { last_activity: o.users@[me].last_activity, ..o.users@[me] }));
+            assert(activity_only(o, o, me));
+        }
+//@loop ~for target in  iter=itt
+                invariant
+                    activity_only(o, o, me),
+                    *state == o, state_wf(o), conn_ok(k0, o), k0 == *old(conn_state), me == my_nick(k0), server == self.config.name@,
+                    conn_same_but_stream(*conn_state, k0), // @prop C01
+                    // the targets iterated are the distinct ones
+                    ref_views(itt.seq()).no_duplicates(), ref_views(itt.seq()).to_set() == str_views(targets@).to_set(), // @prop C01
+                    itt.index@ == itt.seq().len() ==> order.no_duplicates() && order.to_set() == str_views(targets@).to_set(), // @prop C01
+                    order == ref_views(itt.seq()).take(itt.index@ as int), // @prop C01
+                    privmsg_chain(server, o, k0, notice, text@, order, obs, sls), // @prop C01,C10
+                    obs[0] == old(outbox).log, obs[order.len() as int] == outbox.log, // @prop C01
+                    sls[0] == old(conn_state).stream.log(), sls[order.len() as int] == conn_state.stream.log(), // @prop C10
+                    notice ==> conn_state.stream.log() == old(conn_state).stream.log(), // @prop C10
+                    log_extends(old(conn_state).stream.log(), conn_state.stream.log()), // @prop C10
+//@after ~for target in 
+                let ghost ob_pre = outbox.log;
+                let ghost sl_pre = conn_state.stream.log();
+                let ghost kpre = *conn_state;
+//@endloop ~for target in 
+                proof {
+                    let t = (**target)@;
+                    let i = itt.index@ as int;
+                    assert(ref_views(itt.seq())[i] == t);
+                    assert(ref_views(itt.seq()).take(i + 1) =~= order.push(t));
+                    if i + 1 == itt.seq().len() { assert(ref_views(itt.seq()).take(i + 1) =~= ref_views(itt.seq())); }
+                    let order0 = order; let obs0 = obs; let sls0 = sls;
+                    order = order0.push(t);
+                    obs = obs0.push(outbox.log);
+                    sls = sls0.push(conn_state.stream.log());
+                    assert(my_nick(kpre) == me && kpre.user_state == k0.user_state);
+                    assert(tgt_delivery(o, me, k0.user_state.source@, notice, text@, t, ob_pre, outbox.log, true));
+                    assert(tgt_answer(server, o, kpre, t, notice, sl_pre, conn_state.stream.log(), true));
+                    assert(tgt_answer(server, o, k0, t, notice, sl_pre, conn_state.stream.log(), true));
+                    assert forall|j: int| 0 <= j < order.len() implies #[trigger] tgt_delivery(o, me, k0.user_state.source@, notice, text@, order[j], obs[j], obs[j + 1], true) by {
+                        if j < order0.len() { assert(tgt_delivery(o, my_nick(k0), k0.user_state.source@, notice, text@, order0[j], obs0[j], obs0[j + 1], true)); }
+                    }
+                    assert forall|j: int| 0 <= j < order.len() implies #[trigger] tgt_answer(server, o, k0, order[j], notice, sls[j], sls[j + 1], true) by {
+                        if j < order0.len() { assert(tgt_answer(server, o, k0, order0[j], notice, sls0[j], sls0[j + 1], true)); }
+                    }
+                }
+//@afterloop ~for target in 
+        proof {
+            assert(privmsg_post(server, o, k0, notice, text@, str_views(targets@), old(outbox).log, outbox.log, old(conn_state).stream.log(), conn_state.stream.log()));
+        }
+//@close
+        proof {
+            assert(state.users@ =~= o.users@.insert(me, User { last_activity: state.users@[me].last_activity, ..o.users@[me] }));
+            assert(activity_only(o, *state, me));
+        }
 //@end
 }
